@@ -263,9 +263,19 @@ type c21op struct {
 }
 
 type c21gen struct {
-	r  *rand.Rand
-	db *db19.Database
+	r    *rand.Rand
+	db   *db19.Database
+	hist *[]string // successful inserts are part of the reported history
 }
+
+// c21opens counts file database opens of this process. On non-Windows Stor.Close never unmaps
+// (mmap_nonwin.go close: "could Munmap but doesn't seem necessary"), so every Create/Open/Check
+// leaks one 64 MB mapping; vm.max_map_count (65530) then makes mmap fail with ENOMEM after ~60000
+// opens. The suite stops cleanly before that; the thorough tier is sharded into processes.
+var c21opens int
+
+const c21openBudget = 24000
+
 
 var c21tables = []string{"ta", "tb", "tc"}
 
@@ -651,7 +661,7 @@ func (g *c21gen) insert(tr *lib.Trace) {
 	sc := ss[g.r.Intn(len(ss))]
 	var flds []string
 	for _, c := range sc.Columns {
-		if c != "-" {
+		if c != "-" && g.r.Intn(5) != 0 { // sometimes a field is left empty
 			flds = append(flds, fmt.Sprintf("%s: %d", c, g.r.Intn(6)))
 		}
 	}
@@ -669,6 +679,9 @@ func (g *c21gen) insert(tr *lib.Trace) {
 		lib.Catch(func() { ut.Abort() })
 	}
 	if e == "" {
+		if g.hist != nil {
+			*g.hist = append(*g.hist, act)
+		}
 		tr.Count("insert ok")
 	} else {
 		tr.Count("insert refused")
@@ -689,15 +702,22 @@ func TestVerifC21Admin(t *testing.T) {
 	}
 	path := filepath.Join(scratch, "c21.db")
 	for h := 0; h < nhist; h++ {
-		os.Remove(path)
-		db, err := db19.CreateDatabase(path)
-		if err != nil {
-			t.Fatal(err)
+		if c21opens+2*steps+2 > c21openBudget {
+			tr.Count("stopped: mmap budget of the process reached")
+			break
 		}
+		os.Remove(path)
+		var db *db19.Database
+		var err error
+		if msg := lib.Catch(func() { db, err = db19.CreateDatabase(path) }); msg != "" || err != nil {
+			tr.Fail("c21-create-fail", fmt.Sprint("CreateDatabase: ", msg, err))
+			break
+		}
+		c21opens++
 		db19.StartConcur(db, time.Hour)
-		g := &c21gen{r: r, db: db}
-		tr.Q("reset", "-")
 		var hist []string
+		g := &c21gen{r: r, db: db, hist: &hist}
+		tr.Q("reset", "-")
 		fail := func(sig, desc string) {
 			tr.Fail(sig, desc+" || history: "+strings.Join(hist, " ; "))
 			tr.Count("F " + sig)
@@ -795,20 +815,38 @@ func TestVerifC21Admin(t *testing.T) {
 			if pe != "" {
 				fail("c21-persist-panic", pe)
 				ok = false
+				lib.Catch(func() { db.Close() })
 				db = nil
 				break
 			}
 			db = nil
-			if ce := db19.CheckDatabase(path, true); ce != nil {
+			c21opens += 2
+			var ce error
+			if msg := lib.Catch(func() { ce = db19.CheckDatabase(path, true) }); msg != "" {
+				fail("c21-reopen-check-panic", "CheckDatabase after clean close panicked: "+msg)
+				ok = false
+				break
+			}
+			if ce != nil {
 				if strings.Contains(ce.Error(), "checksum mismatch") {
 					fail("c21-f12-cksum-mismatch", "CheckDatabase after clean close: "+ce.Error())
 				} else {
-					fail("c21-reopen-check", "CheckDatabase after clean close: "+ce.Error())
+					sig := "c21-reopen-check"
+					if strings.Contains(ce.Error(), "foreign key not found") && strings.HasSuffix(ce.Error(), `""`) {
+						// full check looks up a foreign key whose trailing fields are empty (finding 46)
+						sig = "c21-f46-checkdb-fk-trailing-empty"
+					}
+					fail(sig, "CheckDatabase after clean close: "+ce.Error())
 				}
 				ok = false
 				break
 			}
-			db, err = db19.OpenDatabase(path)
+			if msg := lib.Catch(func() { db, err = db19.OpenDatabase(path) }); msg != "" {
+				db = nil
+				fail("c21-reopen-open-panic", "OpenDatabase after clean close panicked: "+msg)
+				ok = false
+				break
+			}
 			if err != nil {
 				db = nil
 				if strings.Contains(err.Error(), "checksum mismatch") {
